@@ -600,5 +600,16 @@ class CallProxy (object):
       return self.method(o, *args, **kw)
     print("callProxy object is gone!")
     raise ReventError("callProxy object is gone!")
+  def __eq__ (self, other):
+    # A proxy is equal to the bound method it stands in for, so that
+    # removeListener(handler) finds weak listeners too.
+    if isinstance(other, CallProxy): return self is other
+    if self.obj is None: return False
+    o = self.obj()
+    return (o is not None and getattr(other, '__self__', None) is o
+            and getattr(other, '__func__', None) is self.method)
+  def __ne__ (self, other):
+    return not self.__eq__(other)
+  __hash__ = object.__hash__
   def __str__ (self):
     return "<CallProxy for " + self.name + ">"
